@@ -176,15 +176,64 @@ def main():
     workdir = tempfile.mkdtemp(prefix="%s_" % prop, dir=workroot)
     try:
         nshards = a.shards or meta.get("shards", {}).get(tier) or max(1, (NCPU * 2) // max(1, len(versions)))
-        results = run_shards(prop, tier, seed, versions, nshards, workdir)
-        verdict = merge_and_report(prop, meta, tier, seed, versions, missing, nshards, results, t0)
+        shared = os.path.join(workdir, "shared")
+        os.makedirs(shared)
+        results = []
+        for stage in range(1, meta.get("stages", 1) + 1):
+            stagedir = os.path.join(workdir, "stage%d" % stage)
+            os.makedirs(stagedir)
+            results += run_shards(prop, tier, seed, versions, nshards, stagedir, ["--stage", str(stage), "--shared", shared])
+        post = {}
+        if meta.get("post"):
+            post = POST[meta["post"]](shared)
+        verdict = merge_and_report(prop, meta, tier, seed, versions, missing, nshards, results, t0, post)
     finally:
         if not a.keep:
             shutil.rmtree(workdir, ignore_errors=True)
     sys.exit(verdict)
 
 
-def merge_and_report(prop, meta, tier, seed, versions, missing, nshards, results, t0):
+def post_c07_schema(shared):
+    """Cross-validation of the worker's mini validator with jsonschema's Draft7Validator
+    (a validator the repository does not use) on the documents the workers handed over,
+    plus negative controls."""
+    try:
+        import jsonschema
+    except ImportError:
+        return {"note_schema_cross_validation": "jsonschema not importable in the driver; mini validator only"}
+    sys.path.insert(0, REPO)
+    try:
+        from code_data import JSON_SCHEMA
+    except Exception as e:
+        harness_fail("driver cannot import code_data.JSON_SCHEMA: %r" % (e,))
+    finally:
+        sys.path.pop(0)
+    val = jsonschema.Draft7Validator(JSON_SCHEMA)
+    n = 0
+    neg = 0
+    for fn in sorted(os.listdir(shared)):
+        if not fn.startswith("c07docs_"):
+            continue
+        for line in open(os.path.join(shared, fn)):
+            rec = json.loads(line)
+            ok = val.is_valid(rec["doc"])
+            n += 1
+            if ok != rec["valid"]:
+                harness_fail("mini validator (%s) and jsonschema (%s) disagree on %s" % (rec["valid"], ok, json.dumps(rec["doc"])[:600]))
+            if neg < 50 and isinstance(rec["doc"].get("blocks"), list):
+                bad = dict(rec["doc"], blocks=5)
+                if val.is_valid(bad):
+                    harness_fail("negative control: schema accepts blocks=5")
+                neg += 1
+    if n == 0:
+        harness_fail("no documents were handed to the driver for cross-validation")
+    return {"sum_docs_cross_validated_with_jsonschema": n, "sum_negative_controls": neg}
+
+
+POST = {"c07_schema": post_c07_schema}
+
+
+def merge_and_report(prop, meta, tier, seed, versions, missing, nshards, results, t0, post=None):
     per_py = {}
     digests = set()
     C = collections.Counter
@@ -223,7 +272,7 @@ def merge_and_report(prop, meta, tier, seed, versions, missing, nshards, results
         pp["violations"] += d["viol_total"]
         enumerated_py[v] += n_enum
         if "predicted" in d["extra"]:
-            predicted[v] = d["extra"]["predicted"]
+            predicted[v] = predicted.get(v, 0) + d["extra"]["predicted"]
         for k in ("enumerated", "skipped", "reach", "outcomes", "viol_kinds"):
             tot[k].update(d[k])
         evaluations += d["evaluations"]
@@ -330,6 +379,7 @@ def merge_and_report(prop, meta, tier, seed, versions, missing, nshards, results
         "bounds": meta.get("bounds", {}).get(tier, ""),
     }
     cov.update(extra_merge)
+    cov.update(post or {})
     if level == "model_checking":
         cov["states"] = int(states)
         cov["transitions"] = int(transitions)
